@@ -416,4 +416,111 @@ def visitStale (rule : WalkRule) : List Bool → Nat
       | _ => 0)
     else 1 + visitStale rule rest
 
+/-! ### REAL failures of the file behind a disk put (harness part X)
+
+The wrapper of part A fails a primitive ABOVE the bucket.  Here the file of a `storageos` put
+itself fails: `write(2)` of chunk `idx` (the chunk does not reach the file; the failure is
+remembered in `writeErr`; `close(2)` then succeeds) or `close(2)` of the file (a deferred
+EIO / ENOSPC / EDQUOT of NFS, FUSE, quota file systems — in the harness EBADF of a descriptor
+closed behind the bucket's back).  `storageos.writeObjectCloser.Close` decides what becomes of
+that: -/
+
+/-- What `writeObjectCloser.Close` sees: is it an atomic put, did a Write record an error, does
+    `file.Close()` fail, does the rename fail. -/
+structure OsClose where
+  atomic : Bool
+  writeErr : Bool
+  fileCloseErr : Bool
+  renameErr : Bool
+  deriving DecidableEq, Repr
+
+/-- `asCoded`: the function at HEAD.  The two other rules are regressions kept for their
+    counterexample theorems: `dropsPlainCloseError` ends with `return nil` (the result of
+    `file.Close()` only matters to the atomic branch), `ignoresWriteErr` renames although a
+    Write failed. -/
+inductive CloseRule where
+  | asCoded | dropsPlainCloseError | ignoresWriteErr
+  deriving DecidableEq, Repr
+
+/-- (error returned?, object published?) — published: a plain put's file IS the object whatever
+    Close says; an atomic put's temp file is renamed over the object only when nothing failed,
+    and removed otherwise. -/
+def osClose (rule : CloseRule) (c : OsClose) : Bool × Bool :=
+  if c.atomic then
+    let w := match rule with | .ignoresWriteErr => false | _ => c.writeErr
+    if w || c.fileCloseErr then (true, false)
+    else if c.renameErr then (true, false)
+    else (false, true)
+  else
+    match rule with
+    | .dropsPlainCloseError => (false, true)
+    | _ => (c.fileCloseErr, true)
+
+/-- `os.File` after `Close`: a second `Close` returns `os.ErrClosed`, which `toStorageError`
+    turns into `storage.ErrClosed` (for an atomic put the joined removal error of the temp file
+    does not hide it).  Result of the SECOND close: `true` = storage.ErrClosed. -/
+def secondCloseIsErrClosed (rule : CloseRule) (atomic : Bool) : Bool :=
+  match rule, atomic with
+  | .dropsPlainCloseError, false => false
+  | _, _ => true
+
+/-- One object put into a DISK bucket through a helper with the plumbing "Put; defer
+    Close-join; write" (`joins` as in `writeObj`), the FILE failing as scheduled: a `.write`
+    fault = `write(2)` of that chunk fails, a `.close` fault = `close(2)` fails. -/
+def realPut (rule : CloseRule) (joins atomic : Bool) (s : Sched) (d : Dest) (path : Str)
+    (chunks : List Content) : Bool × Dest :=
+  if s.has ⟨path, .put, 0⟩ then (true, { d with fired := ⟨path, .put, 0⟩ :: d.fired })
+  else
+    match validatePath path with
+    | .error _ => (true, d)
+    | .ok p =>
+      let w := writeChunks s path 0 chunks
+      let written := joinContent w.1
+      let firedW := match w.2 with | some f => [f] | none => []
+      let closeFault := s.has ⟨path, .close, 0⟩
+      let firedC := if closeFault then [(⟨path, .close, 0⟩ : Fault)] else []
+      let writeErr := w.2.isSome
+      let c := osClose rule ⟨atomic, writeErr, closeFault, false⟩
+      -- a plain put truncates and fills the object itself; an atomic put fills a temp file
+      let mem' := if atomic && !c.2 then d.mem else (p, written) :: d.mem.erase p
+      let err := deferJoin joins writeErr false c.1
+      (err, { d with mem := mem', fired := firedC ++ firedW ++ d.fired })
+
+/-- A helper over several objects: `par` = storage.Copy (every job runs, errors collected, count
+    of successful jobs), otherwise a sequential loop that stops at the first error (Untar, Unzip,
+    WalkReadObjects loops).  `outer` = an enclosing deferred join (copyPath around
+    copyReadObject, copyZipFile around CopyReader). -/
+def realAll (rule : CloseRule) (par : Bool) (joins : Bool) (outer : Option Bool) (atomic : Bool)
+    (s : Sched) (d : Dest) : List (Str × List Content) → Bool × Dest × Nat
+  | [] => (false, d, 0)
+  | (p, cs) :: rest =>
+    let r := realPut rule joins atomic s d p cs
+    let e := match outer with | some j => deferJoin j r.1 false false | none => r.1
+    if par then
+      let rr := realAll rule par joins outer atomic s r.2 rest
+      (e || rr.1, rr.2.1, (if e then 0 else 1) + rr.2.2)
+    else if e then (true, r.2, 0)
+    else
+      let rr := realAll rule par joins outer atomic s r.2 rest
+      (rr.1, rr.2.1, rr.2.2 + 1)
+
+/-- The plumbing of the helpers exercised by part X: (joins of the inner Put/Close helper,
+    enclosing join, parallel?). -/
+def realHelper (fx : Facts) : String → Option (Bool × Option Bool × Bool)
+  | "direct" => some (true, none, false)
+  | "putpath" => some (fx.putPath, none, false)
+  | "copyreader" => some (fx.copyReader, none, false)
+  | "forwriteobject" => some (fx.forWriteObject, none, false)
+  | "copyreadobject" => some (fx.copyReadObject, none, false)
+  | "copypath" => some (fx.copyReadObject, some fx.copyPath, false)
+  | "copy" => some (fx.copyReadObject, some fx.copyPath, true)
+  | "untar" => some (fx.copyReader, none, false)
+  | "unzip" => some (fx.copyReader, some fx.copyZipFile, false)
+  | "wro-copyreadobject" => some (fx.copyReadObject, none, false)
+  | "wro-putpath" => some (fx.putPath, none, false)
+  | "walk-bare" => some (fx.copyReadObject, none, false)
+  | "export-like" => some (fx.copyReadObject, none, false)
+  | "walk-copypath" => some (fx.copyReadObject, some fx.copyPath, false)
+  | _ => none
+
 end BufModel.Faults
